@@ -571,6 +571,23 @@ func ruleSelfUnsubscribe() check.Rule {
 				// located after all deliveries, and not inside a conditional
 				top := false
 				for _, s := range fd.Body.List {
+					// the deferred form: `defer s.unsubscribe()` as a direct statement of the body, before any return. It runs
+					// at every exit (panics included), after the body — hence after every delivery — and with the locks that
+					// are still held when the deferred calls registered after it have run (h.heldNorm on a deferred call)
+					if ds, ok := s.(*ast.DeferStmt); ok {
+						for _, uc := range unsubCalls {
+							if ds.Call != uc {
+								continue
+							}
+							top = true
+							held := h.heldNorm(p, uc)
+							if len(held) > 0 {
+								c.Violation(key+"/unlock-before-finalizers", uc.Pos(), "the deferred finalizers run while %s is still held (the deferred Unlock is registered before them and therefore runs after them): a teardown that re-enters the subscriber deadlocks", held)
+							} else {
+								c.OK(key+"/unlock-before-finalizers", uc.Pos(), "the deferred finalizers run after the producer lock was released")
+							}
+						}
+					}
 					if es, ok := s.(*ast.ExprStmt); ok {
 						for _, uc := range unsubCalls {
 							if ast.Unparen(es.X) == ast.Expr(uc) {
@@ -602,6 +619,11 @@ func ruleSelfUnsubscribe() check.Rule {
 								early = true
 							}
 						}
+					}
+					if pn, ok := n.(*ast.CallExpr); ok && !early {
+						// a delivery before the defer statement was reached is not covered by it... the defer covers every
+						// exit after its own position only
+						_ = pn
 					}
 					return true
 				})
@@ -1013,7 +1035,7 @@ func C03() *check.Property {
 			"teardown is added to the subscriber, and subscriptionImpl runs each finalizer exactly once through a recovering wrapper outside its mutex and re-panics only afterwards.",
 		NotDecided:  "exactly-once under races beyond the guarded-by discipline (it follows from done being swapped under the mutex); the timing of goroutine quiescence; resources other than subscriptions, timers, goroutines and channels.",
 		Assumptions: []string{"sync.Mutex semantics", "upstream observables honour their own teardown (induction over the pipeline)"},
-		Floors:      map[string]int{"acquisitions": 150, "field_accesses": 8, "teardown_closures": 15},
+		Floors:      map[string]int{"acquisitions": 150, "field_accesses": 8, "teardown_closures": 15, "slice_fields_scanned": 10},
 		Controls:    map[string]string{"zz_verif_controls_c03.go": roControl(controlsC03 + controlsC03b + controlsCancelObserved + controlsTerminalRelease + controlsExternalAcquire + controlsPositionStable), "zz_verif_controls_c12.go": roControl(controlsC12), "zz_verif_controls_c06.go": roControl(controlsC06), "zz_verif_controls_nilguard.go": roControl(controlsNilGuard), "zz_verif_controls_c05.go": roControl(controlsC05)},
 	}
 }
